@@ -937,18 +937,18 @@ theorem sendTraffic_statInv {cfg : Cfg} {s : State} (h : StatInv cfg s) : StatIn
 theorem ticks_statInv {cfg : Cfg} {s : State} (h : StatInv cfg s) : StatInv cfg (ticks cfg s) := by
   unfold ticks
   dsimp only
-  have h1 : StatInv cfg (if (cfg.timing && decide (s.now - s.tTiming > 900)) = true then
+  have h1 : StatInv cfg (if (cfg.timing && decide (s.now - s.tTiming > cfg.pTiming)) = true then
       { sendTiming cfg s with tTiming := s.now } else s) := by
     split
     · exact statInv_same (sendTiming_statInv h) rfl rfl rfl rfl
     · exact h
-  generalize (if (cfg.timing && decide (s.now - s.tTiming > 900)) = true then
+  generalize (if (cfg.timing && decide (s.now - s.tTiming > cfg.pTiming)) = true then
       { sendTiming cfg s with tTiming := s.now } else s) = s1 at h1 ⊢
-  have h2 : StatInv cfg (if s1.now - s1.tTraffic > 1000 then sendTraffic cfg s1 else s1) := by
+  have h2 : StatInv cfg (if s1.now - s1.tTraffic > cfg.pTraffic then sendTraffic cfg s1 else s1) := by
     split
     · exact sendTraffic_statInv h1
     · exact h1
-  generalize (if s1.now - s1.tTraffic > 1000 then sendTraffic cfg s1 else s1) = s2 at h2 ⊢
+  generalize (if s1.now - s1.tTraffic > cfg.pTraffic then sendTraffic cfg s1 else s1) = s2 at h2 ⊢
   split
   · obtain ⟨s3, ha, he⟩ := sendActive_acc cfg s2
     rw [he]; exact statInv_same (statInv_acc h2 ha) rfl rfl rfl rfl
@@ -1093,22 +1093,22 @@ theorem activePart_acc (cfg : Cfg) (s : State) (hidle : s.inTraffic = false) (t3
     interval has; the clocks move accordingly -/
 theorem ticks_acc (cfg : Cfg) (s : State) (hidle : s.inTraffic = false) :
     ∃ mk, (ticks cfg s).hist = mk ++ s.hist ∧ (∀ m ∈ mk, TickMark cfg m) ∧
-      (Mark.timingTick ∈ mk ↔ (cfg.timing && decide (s.now - s.tTiming > 900)) = true) ∧
-      (Mark.trafficTick ∈ mk ↔ s.now - s.tTraffic > 1000) ∧
+      (Mark.timingTick ∈ mk ↔ (cfg.timing && decide (s.now - s.tTiming > cfg.pTiming)) = true) ∧
+      (Mark.trafficTick ∈ mk ↔ s.now - s.tTraffic > cfg.pTraffic) ∧
       (ticks cfg s).now = s.now ∧ (ticks cfg s).buf = s.buf ∧ (ticks cfg s).inTraffic = false ∧
-      (ticks cfg s).tTiming = (if (cfg.timing && decide (s.now - s.tTiming > 900)) = true then s.now else s.tTiming) ∧
-      (ticks cfg s).tTraffic = (if s.now - s.tTraffic > 1000 then s.now else s.tTraffic) ∧
-      (ticks cfg s).trafficSeq = (if s.now - s.tTraffic > 1000 then s.trafficSeq + 1 else s.trafficSeq) ∧
-      (ticks cfg s).tInfo = (if s.now - s.tInfo > 5000 then s.now else s.tInfo) := by
+      (ticks cfg s).tTiming = (if (cfg.timing && decide (s.now - s.tTiming > cfg.pTiming)) = true then s.now else s.tTiming) ∧
+      (ticks cfg s).tTraffic = (if s.now - s.tTraffic > cfg.pTraffic then s.now else s.tTraffic) ∧
+      (ticks cfg s).trafficSeq = (if s.now - s.tTraffic > cfg.pTraffic then s.trafficSeq + 1 else s.trafficSeq) ∧
+      (ticks cfg s).tInfo = (if s.now - s.tInfo > cfg.pInfo then s.now else s.tInfo) := by
   unfold ticks
   dsimp only
-  obtain ⟨mk1, st1, m11, m12, a1, a2, a3, a4⟩ := timingPart_acc cfg s hidle (cfg.timing && decide (s.now - s.tTiming > 900))
-  generalize (if (cfg.timing && decide (s.now - s.tTiming > 900)) = true then
+  obtain ⟨mk1, st1, m11, m12, a1, a2, a3, a4⟩ := timingPart_acc cfg s hidle (cfg.timing && decide (s.now - s.tTiming > cfg.pTiming))
+  generalize (if (cfg.timing && decide (s.now - s.tTiming > cfg.pTiming)) = true then
       { sendTiming cfg s with tTiming := s.now } else s) = s1 at st1 a1 a2 a3 a4 ⊢
-  obtain ⟨mk2, st2, m21, m22, b1, b2, b3, b4⟩ := trafficPart_acc cfg s1 st1.idle (s1.now - s1.tTraffic > 1000)
-  generalize (if s1.now - s1.tTraffic > 1000 then sendTraffic cfg s1 else s1) = s2 at st2 b1 b2 b3 b4 ⊢
-  obtain ⟨mk3, st3, m31, m32, c1, c2, c3, c4⟩ := activePart_acc cfg s2 st2.idle (s2.now - s2.tInfo > 5000)
-  generalize (if s2.now - s2.tInfo > 5000 then sendActive cfg s2 else s2) = s3 at st3 c1 c2 c3 c4 ⊢
+  obtain ⟨mk2, st2, m21, m22, b1, b2, b3, b4⟩ := trafficPart_acc cfg s1 st1.idle (s1.now - s1.tTraffic > cfg.pTraffic)
+  generalize (if s1.now - s1.tTraffic > cfg.pTraffic then sendTraffic cfg s1 else s1) = s2 at st2 b1 b2 b3 b4 ⊢
+  obtain ⟨mk3, st3, m31, m32, c1, c2, c3, c4⟩ := activePart_acc cfg s2 st2.idle (s2.now - s2.tInfo > cfg.pInfo)
+  generalize (if s2.now - s2.tInfo > cfg.pInfo then sendActive cfg s2 else s2) = s3 at st3 c1 c2 c3 c4 ⊢
   have n2 : s2.now = s.now := st2.now.trans st1.now
   rw [st1.now, a2] at m21 b2 b3
   rw [n2, b4, a4] at c4
@@ -1166,7 +1166,7 @@ theorem io_grows (cfg : Cfg) (s : State) (a : Bool) (w : List Nat) (rs : List Re
 theorem ticks_grows (cfg : Cfg) (s : State) : Grows s (ticks cfg s) := by
   unfold ticks
   dsimp only
-  have h1 : Grows s (if (cfg.timing && decide (s.now - s.tTiming > 900)) = true then
+  have h1 : Grows s (if (cfg.timing && decide (s.now - s.tTiming > cfg.pTiming)) = true then
       { sendTiming cfg s with tTiming := s.now } else s) := by
     split
     · unfold sendTiming; dsimp only
@@ -1174,9 +1174,9 @@ theorem ticks_grows (cfg : Cfg) (s : State) : Grows s (ticks cfg s) := by
         (mgrFrame cfg.mtTiming 0 cfg.szTiming (Body.timing (timingEntries cfg s.counts) (pidEntries s.mods))))
       exact ((grows_of_eq (s := s) rfl).trans this).trans ⟨[.timingTick], rfl⟩
     · exact Grows.refl s
-  generalize (if (cfg.timing && decide (s.now - s.tTiming > 900)) = true then
+  generalize (if (cfg.timing && decide (s.now - s.tTiming > cfg.pTiming)) = true then
       { sendTiming cfg s with tTiming := s.now } else s) = s1 at h1 ⊢
-  have h2 : Grows s1 (if s1.now - s1.tTraffic > 1000 then sendTraffic cfg s1 else s1) := by
+  have h2 : Grows s1 (if s1.now - s1.tTraffic > cfg.pTraffic then sendTraffic cfg s1 else s1) := by
     split
     · unfold sendTraffic; dsimp only
       have a1 := grows_of_acc (logAt_macc cfg 10 ({ s1 with inTraffic := true } : State))
@@ -1184,7 +1184,7 @@ theorem ticks_grows (cfg : Cfg) (s : State) : Grows s (ticks cfg s) := by
       have a2 := grows_of_acc (foldl_fwdTop_any cfg (trafficFrames cfg s1'.trafficSeq s1'.traffic) s1')
       exact (((grows_of_eq (s := s1) rfl).trans a1).trans a2).trans ⟨[.trafficTick], rfl⟩
     · exact Grows.refl s1
-  generalize (if s1.now - s1.tTraffic > 1000 then sendTraffic cfg s1 else s1) = s2 at h2 ⊢
+  generalize (if s1.now - s1.tTraffic > cfg.pTraffic then sendTraffic cfg s1 else s1) = s2 at h2 ⊢
   refine (h1.trans h2).trans ?_
   split
   · obtain ⟨s3, ha, he⟩ := sendActive_acc cfg s2
